@@ -15,7 +15,7 @@ import ast
 from sa.model import AnalysisError, FuncInfo
 from sa.ctx import Ctx, short, stmt_key, ENGINE_MODULES
 from sa.cfg import NORMAL, describe_path
-from sa.report import Report
+from sa.report import Report, section
 from sa.effects import Effects
 from sa.sides import SideAnalysis, show, MUTATING_API
 from sa.util import extra_facts, cfg_root, node_has_call, node_contains, has_fact, node_stores_attr, fact_binds, fact_in, local_assigned_from
@@ -441,28 +441,28 @@ def neg_show(s):
 
 def run(ctx: Ctx, rep: Report, tier: str):
     c = C12(ctx, rep)
-    c.y1()
-    c.y2()
-    c.y3()
-    c.y4()
-    c.y5()
-    c.y6()
-    c.y7()
-    c.y8()
-    c.y9()
+    section(rep, c.y1)
+    section(rep, c.y2)
+    section(rep, c.y3)
+    section(rep, c.y4)
+    section(rep, c.y5)
+    section(rep, c.y6)
+    section(rep, c.y7)
+    section(rep, c.y8)
+    section(rep, c.y9)
     rep.assume("an application-supplied translate() returns None for what it declines; provider-side event filtering is not relied upon")
     from rules.common import subpath_lengths_are_normalised
     rep.rule("C12.Y5b", "the component-boundary test of is_subpath is positioned with the length of the normalised folder (C13.Z8): a root configured as `/local/` "
              "neither rejects its own content nor admits `/locals/...`", 2)
-    subpath_lengths_are_normalised(ctx, rep, "C12.Y5b")
+    section(rep, lambda: subpath_lengths_are_normalised(ctx, rep, "C12.Y5b"))
     from rules.common import refresh_marks_changed
     rep.rule("C12.Y10", "an object that left the root is noticed even before its event arrives: a refresh that discovers a new path marks the side changed (C14.W7), so a "
              "concurrent delete on the other side does not delete the moved-out object by its id", 2)
-    refresh_marks_changed(ctx, rep, "C12.Y10")
+    section(rep, lambda: refresh_marks_changed(ctx, rep, "C12.Y10"))
     from rules.C20 import C20 as _C20
     from rules.common import alias as _alias12
     _alias12(rep, ["C20.S4"], "C12.Y11", "un-request pushes a pending local MOVE as well as a pending edit before it deletes the local copy (C20.S4): an object moved out of the "
              "root is not deleted through its refreshed path", 1, lambda: _C20(ctx, rep).s4(), keep=lambda i: i.key == "_smart_unsync_ent|push")
     from rules.common import content_first_deferral
     rep.rule("C12.Y12", "a move out of the root does not destroy a concurrent edit of the peer: the content change is handled first (C02.R15)", 1)
-    content_first_deferral(ctx, rep, "C12.Y12")
+    section(rep, lambda: content_first_deferral(ctx, rep, "C12.Y12"))
